@@ -261,8 +261,23 @@ func build(specs []spec, idx, level int) []*node {
 			} else {
 				n.T = "../" + names[j]
 			}
+			// link targets are strings, not paths: spellings that a path-cleaning step would change
+			// (./x, x/, zz/../x, x//.) must come back exactly
+			switch (idx + j) % 5 {
+			case 1:
+				n.T = "./" + n.T
+			case 2:
+				n.T = n.T + "/"
+			case 3:
+				n.T = "zz/../" + n.T
+			case 4:
+				n.T = n.T + "//."
+			}
 		case kLinkDangling:
 			n.K, n.T = "l", "no/such target"
+			if idx%2 == 1 {
+				n.T = "no//such/./target"
+			}
 		case kLinkAbs:
 			n.K, n.T = "l", "/dev/null"
 		default:
